@@ -62,6 +62,10 @@ class AimdRateControl:
         estimated_throughput: Optional[int],
         now_ms: int,
     ) -> Optional[int]:
+        # keep track of the latest measured throughput
+        if estimated_throughput is not None:
+            self.latest_estimated_throughput = estimated_throughput
+
         if not self.current_bitrate_initialized and estimated_throughput is not None:
             if self.first_estimated_throughput_time is None:
                 self.first_estimated_throughput_time = now_ms
@@ -90,9 +94,7 @@ class AimdRateControl:
 
         # helper variables
         new_bitrate = self.current_bitrate
-        if estimated_throughput is not None:
-            self.latest_estimated_throughput = estimated_throughput
-        else:
+        if estimated_throughput is None:
             estimated_throughput = self.latest_estimated_throughput
         estimated_throughput_kbps = estimated_throughput / 1000
 
